@@ -16,6 +16,7 @@ import (
 	"github.com/gauss-project/aurorafs/pkg/boson"
 	chequePkg "github.com/gauss-project/aurorafs/pkg/settlement/traffic/cheque"
 	"github.com/gauss-project/aurorafs/pkg/statestore/leveldb"
+	"github.com/gauss-project/aurorafs/pkg/storage"
 	"verifharness/hx"
 	"verifharness/pay"
 )
@@ -69,6 +70,23 @@ type jcase struct {
 	Chain []jchain `json:"chain,omitempty"`
 	Lists []int    `json:"lists,omitempty"`
 	Ops2  []jop    `json:"ops2,omitempty"`
+	// storef: indices of Ops during which every state-store read fails (transient store fault)
+	Faults []int `json:"faults,omitempty"`
+}
+
+// faultStore fails every Get while armed (a transient read fault of the state store).
+type faultStore struct {
+	storage.StateStorer
+	armed bool
+	hits  int
+}
+
+func (f *faultStore) Get(key string, i interface{}) error {
+	if f.armed {
+		f.hits++
+		return errors.New("verif: injected state-store read fault")
+	}
+	return f.StateStorer.Get(key, i)
 }
 
 func bigOf(s string) *big.Int {
@@ -368,7 +386,12 @@ func runStore(jc jcase) {
 	}
 	self := addrs[0]
 	enc := pay.NewEnc(addrs, peers)
-	cs := chequePkg.NewChequeStore(st, self, chequePkg.RecoverCheque, pay.ChainID)
+	fst := &faultStore{StateStorer: st}
+	faultAt := map[int]bool{}
+	for _, f := range jc.Faults {
+		faultAt[f] = true
+	}
+	cs := chequePkg.NewChequeStore(fst, self, chequePkg.RecoverCheque, pay.ChainID)
 	maxAcc := map[common.Address]*big.Int{}
 	sum := map[common.Address]*big.Int{}
 	getMax := func(a common.Address) *big.Int {
@@ -383,7 +406,10 @@ func runStore(jc jcase) {
 		sc, validSig := build(o)
 		coqsc := coqSC(enc, sc)
 		payout := new(big.Int).Set(sc.CumulativePayout)
+		fst.armed, fst.hits = faultAt[i], 0
 		amount, err := cs.ReceiveCheque(context.Background(), sc)
+		fst.armed = false
+		faulted := fst.hits > 0
 		cl := classOf(err)
 		am := big.NewInt(0)
 		if err == nil {
@@ -393,6 +419,11 @@ func runStore(jc jcase) {
 		run.Hist("store." + o.Kind)
 		want := sc.Recipient == self && validSig && payout.Cmp(getMax(sc.Beneficiary)) > 0
 		run.OracleChecked(1)
+		if faulted && err != nil {
+			// the store could not be read: refusing the cheque (nothing credited, nothing stored) is correct
+			run.Hist("store.refused-under-read-fault")
+			continue
+		}
 		if (err == nil) != want {
 			sig := "store-reject:valid-cheque"
 			if err == nil {
@@ -405,7 +436,10 @@ func runStore(jc jcase) {
 					sig = "store-accept:not-increasing"
 				}
 			}
-			run.Violate(hx.Violation{Sig: sig, Detail: fmt.Sprintf("op %d (%s): chequeStore.ReceiveCheque err=%v", i, o.Kind, err), Case: jc, Impl: err == nil, Want: want})
+			if faulted {
+				sig += ":under-store-read-fault"
+			}
+			run.Violate(hx.Violation{Sig: sig, Detail: fmt.Sprintf("op %d (%s): chequeStore.ReceiveCheque err=%v (store read fault injected: %v)", i, o.Kind, err, faulted), Case: jc, Impl: err == nil, Want: want})
 		}
 		if err == nil {
 			accepted++
@@ -439,6 +473,11 @@ func runStore(jc jcase) {
 			run.Violate(hx.Violation{Sig: "store-credit:total!=max-accepted", Detail: fmt.Sprintf("issuer %s: stored %v, sum of returned amounts %v, highest accepted %v", a.Hex(), l, s, getMax(a)), Case: jc})
 		}
 		dump = append(dump, hx.CoqPair(enc.Addr(a), optZ(last)))
+	}
+	if len(jc.Faults) > 0 {
+		// fault layer: oracle on the implementation only (the model has no failing read; a refused
+		// delivery is a no-op there, so the remaining history is the case without the refused ops)
+		return
 	}
 	term := hx.CoqApp("CStore", enc.Addr(self), hx.CoqList(coqOps, "signed * (N * Z)"), hx.CoqList(dump, "addr * option Z"))
 	run.AddCase(term, jc, keyOf(jc), accepted >= 2)
@@ -728,6 +767,13 @@ func corpus() []jcase {
 	}
 }
 
+// faultCorpus: 10, 30, then a replay of 10 while the store cannot be read, then 30 again.
+func faultCorpus() []jcase {
+	ops := []jop{valid(1, 1, big.NewInt(10), "valid"), valid(1, 1, big.NewInt(30), "valid"),
+		valid(1, 1, big.NewInt(10), "replay-lower"), valid(1, 1, big.NewInt(30), "replay")}
+	return []jcase{{Kind: "storef", Ops: ops, Faults: []int{2}}, {Kind: "storef", Ops: ops, Faults: []int{2, 3}}, {Kind: "storef", Ops: ops, Faults: []int{1}}}
+}
+
 func main() {
 	run = hx.Start("C30", "Aurora.C30.Corr",
 		"concurrent deliveries (2-4 goroutines, same/increasing/decreasing/two-issuer/defective cheques) through the real service over a gated state store (the controller grants the store's reads before its writes), followed by sequential replays; histories restarted (Init) with chain totals above/equal/below the stored cheques before further cheques; and histories (6..24 ops) of registrations (Handshake with empty signature) and cheques delivered to the real traffic service, and store-only cheque sequences; cheques are valid / replayed / not increasing / negative / mis-addressed / wrongly signed (7 ways) / foreign-issuer / from unregistered peers / odd issuer, signed with real EIP-712 keys; addresses are encoded injectively as small numbers (universe index, others numbered from 100 in order of appearance); non-trivial = at least two cheques accepted; distinct by the full op list")
@@ -743,7 +789,7 @@ func main() {
 				panic(err)
 			}
 			runConc(cc)
-		} else if jc.Kind == "store" {
+		} else if jc.Kind == "store" || jc.Kind == "storef" {
 			runStore(jc)
 		} else {
 			runSvc(jc)
@@ -773,6 +819,25 @@ func main() {
 	}
 	for i := 0; i < nStore; i++ {
 		runStore(genStore(run.R.Fork(uint64(1000000+i)), 4+run.R.Intn(16)))
+	}
+	// store-only sequences with transient read faults of the state store during some deliveries
+	// (replays and decreasing cheques among them): a delivery under a fault is refused or correct
+	for _, jc := range faultCorpus() {
+		runStore(jc)
+	}
+	for i := 0; i < run.N(30, 300); i++ {
+		r := run.R.Fork(uint64(4000000 + i))
+		jc := genStore(r, 6+r.Intn(14))
+		jc.Kind = "storef"
+		for k := range jc.Ops {
+			if k > 0 && r.Intn(3) == 0 {
+				jc.Faults = append(jc.Faults, k)
+			}
+		}
+		if len(jc.Faults) == 0 {
+			jc.Faults = []int{len(jc.Ops) - 1}
+		}
+		runStore(jc)
 	}
 	run.Finish()
 }
